@@ -17,7 +17,7 @@ RULE = (
     "sink; a `ready` input on every node incl. source and sink; source optionally no_dependency; sink external "
     "over a subset of the defined fields; "
     "allow_unused/allow_empty drawn and forced on when the independent liveness computation needs them; optional "
-    "external clear hook) + history in 1-4 segments (per-segment weights for write/read/clear/ext requests, per-node "
+    "0-3 external clear hooks, possibly sharing one Method name) + history in 1-4 segments (per-segment weights for write/read/clear/ext requests, per-node "
     "stall weights incl. 'stalled for the whole segment', helper readiness) followed by a clear-free drain with "
     "everything ready; non-trivial = >= 1 middle node, >= 3 items accepted, >= 1 delivered and (a stall while >= 2 "
     "items were in flight or a clear with items in flight)"
@@ -69,7 +69,10 @@ def strategy(draw, tier="quick"):
         "sink_fifo": draw(st.sampled_from([0, 0, 1, 2, 3])),
         "allow_unused": draw(st.sampled_from([False, False, False, True])),
         "allow_empty": draw(st.sampled_from([False, False, False, True])),
-        "ext_clear": draw(st.booleans()),
+        # number of external clear hooks (0-3); "same name": the hooks are different Methods that share one name, as
+        # `<submodule>.clear` of several external modules do
+        "ext_clear": draw(st.sampled_from([0, 1, 1, 2, 2, 3])),
+        "ext_clear_same_name": draw(st.booleans()),
         "src_nodep": draw(st.sampled_from([False, False, False, True])),
     }
     n_nodes = n_mid + 2
@@ -185,7 +188,8 @@ def resolve(case):
         nodes=nodes,
         allow_unused=allow_unused,
         allow_empty=allow_empty,
-        ext_clear=case["ext_clear"],
+        ext_clear=int(case["ext_clear"]),
+        ext_clear_same_name=bool(case.get("ext_clear_same_name", False)),
         src_nodep=bool(case.get("src_nodep", False)),
     )
 
@@ -251,7 +255,7 @@ def build(spec):
             self.ran = {}
             self.seen = {}
             self.helpers = {}
-            self.ext_clear_ran = Signal()
+            self.ext_clear_ran = Signal(max(1, spec["ext_clear"]))
             for j, nd in enumerate(nodes):
                 if nd["kind"] in "xn":
                     setattr(self, f"ext{j}", Method(i=lay(nd["gen"]), o=lay(nd["req"]), name=f"ext{j}"))
@@ -302,13 +306,15 @@ def build(spec):
                             return lambda arg: body({f: arg[f] for f in nd["req"]})
 
                         pb.stage(m, o=lay(nd["gen"]), i=lay(nd["req"]), ready=rdy)(mk_arg(body, nd))
-            if spec["ext_clear"]:
-                hook = Method(name="ext_clear_hook")
+            for hk in range(spec["ext_clear"]):
+                hook = Method(name="clear" if spec["ext_clear_same_name"] else f"ext_clear_hook{hk}")
 
-                @def_method(m, hook)
-                def _():
-                    m.d.comb += self.ext_clear_ran.eq(1)
+                def mk_hook(hk, hook):
+                    @def_method(m, hook)
+                    def _():
+                        m.d.comb += self.ext_clear_ran[hk].eq(1)
 
+                mk_hook(hk, hook)
                 pb.add_external_clear(hook)
             self.clear.provide(pb.clear)
             return m
@@ -440,8 +446,11 @@ def run_case(case) -> Result:
             if "clear" in reqs and results["clear"] is None:
                 return res.fail(f"cycle {t}: clear was requested but not accepted")
             clear_now = results["clear"] is not None
-            if bool(sampled[ec_ix]) != (clear_now and spec["ext_clear"]):
-                return res.fail(f"cycle {t}: external clear hook ran={sampled[ec_ix]} but clear accepted={clear_now}")
+            if sampled[ec_ix] != (((1 << spec["ext_clear"]) - 1) if clear_now else 0):
+                return res.fail(
+                    f"cycle {t}: external clear hooks ran=0b{sampled[ec_ix]:b} (one bit per hook, {spec['ext_clear']} "
+                    f"hooks registered) but clear accepted={clear_now}"
+                )
             inflight = len(passed[0]) - len(passed[n_nodes - 1])
             stalled_now = False
             # ---- node by node
